@@ -1,6 +1,7 @@
 package main
 
 import (
+	"errors"
 	"encoding/hex"
 	"fmt"
 	"math"
@@ -76,6 +77,8 @@ func (v VT) wire(sb *strings.Builder) {
 		fmt.Fprintf(sb, "f%d ", math.Float64bits(v.F))
 	case "str":
 		fmt.Fprintf(sb, "s%s ", hxb(v.S))
+	case "func":
+		fmt.Fprintf(sb, "F%d ", v.I)
 	case "list", "arr":
 		tag := "l"
 		if v.K == "arr" {
@@ -149,6 +152,64 @@ type SInt int
 
 func (s SInt) String() string { return "<" + strconv.Itoa(int(s)) + ">" }
 
+// methods of the harness struct (mirrored in the model: Exec.lean vs1Methods)
+func (v VS1) GetB() any                 { return v.B }
+func (v VS1) Echo(s string) string      { return s + "!" }
+func (v *VS1) PtrName() string          { return "ptr" }
+func (v VS1) Fail() (string, error)     { return "", errors.New("method failed") }
+func (v VS1) Sum(xs ...int) int {
+	t := 0
+	for _, x := range xs {
+		t += x
+	}
+	return t
+}
+
+// goFuncs is the catalogue of context functions (mirrored in the model: Exec.lean goFuncSig/goFuncRun).
+var goFuncs = []any{
+	0: func() string { return "f0" },
+	1: func(i int) int { return i * 2 },
+	2: func(s string, i int) string { return s + strconv.Itoa(i) },
+	3: func(xs ...int) int {
+		t := 0
+		for _, x := range xs {
+			t += x
+		}
+		return t
+	},
+	4: func(p string, xs ...string) string { return p + strings.Join(xs, ",") },
+	5: func(v *pongo2.Value) *pongo2.Value { return pongo2.AsValue(v.String() + "!") },
+	6: func(v *pongo2.Value, more ...*pongo2.Value) *pongo2.Value { return pongo2.AsValue(len(more)) },
+	7: func() (string, error) { return "", errors.New("boom") },
+	8: func(i int) (int, error) {
+		if i < 0 {
+			return 0, errors.New("negative")
+		}
+		return i + 1, nil
+	},
+	9: func(c *pongo2.ExecutionContext) string {
+		if c.Autoescape {
+			return "on"
+		}
+		return "off"
+	},
+	10: func(c *pongo2.ExecutionContext, s string) string { return s + "@" },
+	11: func(a any) any { return a },
+	12: func() *pongo2.Value { return pongo2.AsSafeValue("<b>") },
+	13: func() (int, int, int) { return 1, 2, 3 },
+	14: func() {},
+	15: func() any { return nil },
+	16: func() (string, string) { return "a", "b" },
+	17: func(f float64) float64 { return f + 0.5 },
+	18: func(b bool) bool { return !b },
+	19: func(xs []int) int { return len(xs) },
+	20: func(m map[string]any) int { return len(m) },
+	21: func(s VS1) any { return s.A },
+	22: func(a, b any) any { return b },
+}
+
+func vFunc(id int) VT { return VT{K: "func", I: int64(id)} }
+
 func vStruct(a, b, c VT) VT {
 	return VT{K: "struct", TName: "main.VS1", Keys: []string{"A", "B", "C"}, Items: []VT{a, b, c}}
 }
@@ -168,6 +229,8 @@ func (v VT) Go() any {
 	switch v.K {
 	case "nil":
 		return nil
+	case "func":
+		return goFuncs[v.I]
 	case "bool":
 		return v.B
 	case "int":
